@@ -2,8 +2,10 @@ import Proofs.ParseMessageOpt
 /-! Parsing back the TSIG record (MAC abstract: whatever octets it holds; validation is C14's business). -/
 namespace Model
 
-structure TsigOk (t : Tsig) : Prop where
-  name : NameOk none t.name
+variable {Rs : RelSpec}
+
+structure TsigOk (Rs : RelSpec) (t : Tsig) : Prop where
+  name : NameOk Rs none t.name
   algWf : WfName t.alg
   algAbs : isAbs t.alg = true
   time : t.time < 281474976710656
@@ -15,14 +17,14 @@ structure TsigOk (t : Tsig) : Prop where
   total : (tsigRdataWire t).length < 65536
 
 /-- equal up to the ASCII case of the (compressible) owner name -/
-def Tsig.sim (a b : Tsig) : Prop :=
-  NameEqv a.name b.name ∧ a.alg = b.alg ∧ a.time = b.time ∧ a.fudge = b.fudge ∧ a.mac = b.mac ∧ a.origId = b.origId ∧
+def Tsig.sim (Rs : RelSpec) (a b : Tsig) : Prop :=
+  Rs.R a.name b.name ∧ a.alg = b.alg ∧ a.time = b.time ∧ a.fudge = b.fudge ∧ a.mac = b.mac ∧ a.origId = b.origId ∧
     a.error = b.error ∧ a.other = b.other
 
 theorem u48_length (n : Nat) : (u48 n).length = 6 := by simp [u48, u16, u32]
 
 /-- TSIG RDATA is parsed back exactly -/
-theorem parseTsigRData_wire (A post : Bytes) (t : Tsig) (owner : Name) (ht : TsigOk t) :
+theorem parseTsigRData_wire (A post : Bytes) (t : Tsig) (owner : Name) (ht : TsigOk Rs t) :
     parseTsigRData (A ++ tsigRdataWire t ++ post) A.length (A.length + (tsigRdataWire t).length) owner =
       .ok { t with name := owner } := by
   obtain ⟨ls, halg, hpl⟩ := abs_split t.alg ht.algWf ht.algAbs
@@ -85,16 +87,18 @@ end Model
 
 namespace Model
 
-theorem tsigRRset_namesOk' (t : Tsig) (h : TsigOk t) : (tsigRRset t).namesOk none :=
+variable {Rs : RelSpec}
+
+theorem tsigRRset_namesOk' (t : Tsig) (h : TsigOk Rs t) : (tsigRRset t).namesOk Rs none :=
   tsigRRset_namesOk none t h.name
 
 /-- the TSIG record written last is parsed into `Message.tsig` (a key being available) -/
-theorem parseRR_tsig (cfg : PCfg) (horg : cfg.origin = none) (hkey : cfg.hasKey = true) (A post : Bytes) (t : CTable)
+theorem parseRR_tsig (cfg : PCfg) (horg : cfg.origin = none) (hkey : cfg.hasKey = true) (upd : Bool) (A post : Bytes) (t : CTable)
     (ts : Tsig) (q : Bytes × CTable × Nat) (count i : Nat) (st : PState) (hcur : st.cur = A.length)
-    (hs : TableSound NameEqv A t) (ht : TsigOk ts) (hpos : i = count - 1)
+    (hs : TableSound Rs.R A t) (ht : TsigOk Rs ts) (hpos : i = count - 1)
     (h : rrsetExt A.length t none (tsigRRset ts) = .ok q) :
-    ∃ ts', ts'.sim ts ∧
-      parseRR cfg false (A ++ q.1 ++ post) ConstsC03.secADDITIONAL count i st =
+    ∃ ts', ts'.sim Rs ts ∧
+      parseRR cfg upd (A ++ q.1 ++ post) ConstsC03.secADDITIONAL count i st =
         .ok { st with cur := A.length + q.1.length, tsig := some ts' } ∧ q.2.2 = 1 := by
   obtain ⟨qe, qn, qk⟩ := q
   unfold rrsetExt at h
@@ -165,6 +169,8 @@ theorem parseRR_tsig (cfg : PCfg) (horg : cfg.origin = none) (hkey : cfg.hasKey 
 end Model
 
 namespace Model
+
+variable {Rs : RelSpec}
 
 /-- `add_rrset(ADDITIONAL, rr)` that succeeded, in relative form -/
 theorem addRRset3_shape (s : RState) (rr : RRset) (s' : RState)
@@ -273,6 +279,8 @@ end Model
 
 namespace Model
 
+variable {Rs : RelSpec}
+
 /-- wire form of any message rendered without padding: header, items, OPT record, TSIG record -/
 theorem toWire_shape_full (m : Message) (lim : Nat) (w : Bytes) (hpad : m.pad = 0) (h : m.toWire lim false = .ok w) :
     ∃ q, itemsExt m.origin 12 [] m.items = .ok q ∧ ∃ eo to bo et bt,
@@ -332,45 +340,45 @@ theorem toWire_shape_full (m : Message) (lim : Nat) (w : Bytes) (hpad : m.pad = 
             simp [List.append_assoc]
 
 /-- well-formed message, absolute names, not an update, no padding; with or without OPT, with or without TSIG -/
-structure MsgOkT (m : Message) : Prop where
+structure MsgOkT (Rs : RelSpec) (m : Message) : Prop where
   origin : m.origin = none
   id : m.id < 65536
   flags : m.flags < 65536
   notUpdate : isUpdate m.flags = false
   opt : ∀ o, m.opt = some o → OptOk o
   pad : m.pad = 0
-  tsig : ∀ t, m.tsig = some t → TsigOk t
-  q : ∀ r ∈ m.q, QOk r
-  an : ∀ r ∈ m.an, RRsetOk r
-  au : ∀ r ∈ m.au, RRsetOk r
-  ad : ∀ r ∈ m.ad, RRsetOk r
+  tsig : ∀ t, m.tsig = some t → TsigOk Rs t
+  q : ∀ r ∈ m.q, QOk Rs r
+  an : ∀ r ∈ m.an, RRsetOk Rs r
+  au : ∀ r ∈ m.au, RRsetOk Rs r
+  ad : ∀ r ∈ m.ad, RRsetOk Rs r
   keysAn : m.an.Pairwise (fun a b => keyMatch b.name b.rdclass b.rdtype b.covers none a = false)
   keysAu : m.au.Pairwise (fun a b => keyMatch b.name b.rdclass b.rdtype b.covers none a = false)
   keysAd : m.ad.Pairwise (fun a b => keyMatch b.name b.rdclass b.rdtype b.covers none a = false)
   counts : m.q.length < 65536 ∧ rrCount m.an < 65536 ∧ rrCount m.au < 65536 ∧ rrCount m.ad + 2 < 65536
 
-def optSim : Option Tsig → Option Tsig → Prop
+def optSim (Rs : RelSpec) : Option Tsig → Option Tsig → Prop
   | none, none => True
-  | some a, some b => a.sim b
+  | some a, some b => a.sim Rs b
   | _, _ => False
 
 /-- equal up to the ASCII case of names (owner of the TSIG record included) -/
-def Message.simT (a b : Message) : Prop :=
-  a.id = b.id ∧ a.flags = b.flags ∧ SimList RRset.sim a.q b.q ∧ SimList RRset.sim a.an b.an ∧
-    SimList RRset.sim a.au b.au ∧ SimList RRset.sim a.ad b.ad ∧ a.opt = b.opt ∧ optSim a.tsig b.tsig
+def Message.simT (Rs : RelSpec) (a b : Message) : Prop :=
+  a.id = b.id ∧ a.flags = b.flags ∧ SimList (RRset.sim Rs) a.q b.q ∧ SimList (RRset.sim Rs) a.an b.an ∧
+    SimList (RRset.sim Rs) a.au b.au ∧ SimList (RRset.sim Rs) a.ad b.ad ∧ a.opt = b.opt ∧ optSim Rs a.tsig b.tsig
 
 /-- the records after the last record set of ADDITIONAL: the OPT record, then the TSIG record -/
-theorem parse_tail (cfg : PCfg) (horg : cfg.origin = none) (hkey : cfg.hasKey = true) (A : Bytes) (t : CTable)
+theorem parse_tail (cfg : PCfg) (horg : cfg.origin = none) (hkey : cfg.hasKey = true) (upd : Bool) (A : Bytes) (t : CTable)
     (opt : Option EOpt) (tsig : Option Tsig) (eo et : Bytes) (to : CTable) (bo bt nad : Nat) (st : PState)
-    (hcur : st.cur = A.length) (hs : TableSound NameEqv A t) (hso : st.opt = none) (hst : st.tsig = none)
-    (hoo : ∀ o, opt = some o → OptOk o) (hto : ∀ ts, tsig = some ts → TsigOk ts)
+    (hcur : st.cur = A.length) (hs : TableSound Rs.R A t) (hso : st.opt = none) (hst : st.tsig = none)
+    (hoo : ∀ o, opt = some o → OptOk o) (hto : ∀ ts, tsig = some ts → TsigOk Rs ts)
     (hop : OptPart A.length t none opt eo to bo) (htp : TsigPart (A.length + eo.length) [] none tsig et bt) :
-    ∃ ts', optSim ts' tsig ∧
-      parseSection cfg false (A ++ eo ++ et) ConstsC03.secADDITIONAL (nad + bo + bt) (bo + bt) nad st =
+    ∃ ts', optSim Rs ts' tsig ∧
+      parseSection cfg upd (A ++ eo ++ et) ConstsC03.secADDITIONAL (nad + bo + bt) (bo + bt) nad st =
         .ok { st with cur := A.length + eo.length + et.length, opt := opt, tsig := ts' } := by
   -- the OPT record, if any
-  have step1 : ∃ st1 : PState, parseSection cfg false (A ++ eo ++ et) ConstsC03.secADDITIONAL (nad + bo + bt) bo nad st = .ok st1 ∧
-      st1 = { st with cur := A.length + eo.length, opt := opt } ∧ TableSound NameEqv (A ++ eo) (t ++ to) := by
+  have step1 : ∃ st1 : PState, parseSection cfg upd (A ++ eo ++ et) ConstsC03.secADDITIONAL (nad + bo + bt) bo nad st = .ok st1 ∧
+      st1 = { st with cur := A.length + eo.length, opt := opt } ∧ TableSound Rs.R (A ++ eo) (t ++ to) := by
     cases opt with
     | none =>
       obtain ⟨rfl, rfl, rfl⟩ := hop
@@ -378,7 +386,7 @@ theorem parse_tail (cfg : PCfg) (horg : cfg.origin = none) (hkey : cfg.hasKey = 
       cases st; simp at hcur hso ⊢; exact ⟨hcur, hso⟩
     | some o =>
       obtain ⟨p, hp, rfl, rfl, rfl, _⟩ := hop
-      obtain ⟨hpo, hsnd, _⟩ := parseRR_opt cfg horg A et t o p (nad + 1 + bt) nad st hcur hs (hoo o rfl) hso hp
+      obtain ⟨hpo, hsnd, _⟩ := parseRR_opt cfg horg upd A et t o p (nad + 1 + bt) nad st hcur hs (hoo o rfl) hso hp
       exact ⟨_, by simp only [parseSection]; rw [hpo], rfl, hsnd⟩
   obtain ⟨st1, hp1, hst1, hs1⟩ := step1
   rw [parseSection_add, hp1]
@@ -392,7 +400,7 @@ theorem parse_tail (cfg : PCfg) (horg : cfg.origin = none) (hkey : cfg.hasKey = 
     obtain ⟨p, hp, rfl, rfl, _⟩ := htp
     have hl : (A ++ eo).length = A.length + eo.length := by simp
     rw [← hl] at hp
-    obtain ⟨ts', hsim, hpt, _⟩ := parseRR_tsig cfg horg hkey (A ++ eo) [] [] ts p (nad + bo + 1) (nad + bo)
+    obtain ⟨ts', hsim, hpt, _⟩ := parseRR_tsig cfg horg hkey upd (A ++ eo) [] [] ts p (nad + bo + 1) (nad + bo)
       { st with cur := A.length + eo.length, opt := opt } (by simp) (tableSound_nil _) (hto ts rfl) (by omega) hp
     refine ⟨some ts', hsim, ?_⟩
     simp only [parseSection]
@@ -404,10 +412,12 @@ end Model
 
 namespace Model
 
+variable {Rs : RelSpec}
+
 /-- render-then-parse: absolute names, any opcode but UPDATE, with or without OPT, with or without TSIG -/
-theorem parse_toWire_full (m : Message) (lim : Nat) (w : Bytes) (hok : MsgOkT m) (h : m.toWire lim false = .ok w)
+theorem parse_toWire_full (m : Message) (lim : Nat) (w : Bytes) (hok : MsgOkT Rs m) (h : m.toWire lim false = .ok w)
     (cfg : PCfg) (horg : cfg.origin = none) (hnorr : cfg.oneRRPerRRset = false) (hkey : cfg.hasKey = true) :
-    ∃ m', parseMessage cfg w = .ok m' ∧ m'.simT m := by
+    ∃ m', parseMessage cfg w = .ok m' ∧ m'.simT Rs m := by
   obtain ⟨q, hq, eo, to, bo, et, bt, hop, htp, hw⟩ := toWire_shape_full m lim w hok.pad h
   rw [hok.origin] at hq hop htp
   obtain ⟨cq, can, cau, cad⟩ := hok.counts
@@ -433,7 +443,7 @@ theorem parse_toWire_full (m : Message) (lim : Nat) (w : Bytes) (hok : MsgOkT m)
   -- the tail
   have hlA : (hdrBytes m (rrCount m.ad + bo + bt) ++ q.1).length = 12 + q.1.length := by simp [hdrBytes_length]
   rw [← hlA] at hop htp
-  obtain ⟨ts', hts, hpt⟩ := parse_tail cfg horg hkey (hdrBytes m (rrCount m.ad + bo + bt) ++ q.1) q.2 m.opt m.tsig eo et to
+  obtain ⟨ts', hts, hpt⟩ := parse_tail cfg horg hkey false (hdrBytes m (rrCount m.ad + bo + bt) ++ q.1) q.2 m.opt m.tsig eo et to
     bo bt (rrCount m.ad) { cur := 12 + q.1.length, q := qs', an := an', au := au', ad := ad' }
     (by simp [hdrBytes_length]) hsnd rfl rfl hok.opt hok.tsig hop htp
   have hw3 : hdrBytes m (rrCount m.ad + bo + bt) ++ q.1 ++ eo ++ et = w := by rw [hw]
